@@ -329,21 +329,29 @@ IsTx(e) == "posts" \in DOMAIN e
 RenEntry(e) == IF IsTx(e) THEN RenTx(e) ELSE RenDir(e)
 AbsEntry(e) == IF IsTx(e) THEN AbsTx(e) ELSE AbsDir(e)
 
+(* what each rendered line of entry i is: <<i, 0>> a header / directive line, <<i, k>> the k-th real
+   posting of the transaction, <<i, -1>> a comment line inside the transaction *)
+LineMap(e, i) ==
+    IF IsTx(e) THEN <<<<i, 0>>>> \o [k \in 1..Len(e.posts) |-> IF IsCLine(e.posts[k]) THEN <<i, 0 - 1>> ELSE <<i, RealBefore(e, k)>>]
+    ELSE [k \in 1..Len(RenDir(e)) |-> <<i, 0>>]
+
 (* lines of the journal with, for each entry, its first line (1-based) *)
-RECURSIVE Layout(_, _, _, _)
-Layout(es, i, lines, firsts) ==
-    IF i > Len(es) THEN [lines |-> lines, firsts |-> firsts]
+RECURSIVE Layout(_, _, _, _, _)
+Layout(es, i, lines, firsts, pmap) ==
+    IF i > Len(es) THEN [lines |-> lines, firsts |-> firsts, pmap |-> pmap]
     ELSE LET r == RenEntry(es[i])
              sep == IF i > 1 /\ (IsTx(es[i - 1]) \/ IsTx(es[i])) THEN <<Empty>> ELSE <<>>
-         IN Layout(es, i + 1, lines \o sep \o r, Append(firsts, Len(lines) + Len(sep) + 1))
+         IN Layout(es, i + 1, lines \o sep \o r, Append(firsts, Len(lines) + Len(sep) + 1),
+                   pmap \o (IF Len(sep) = 0 THEN <<>> ELSE <<<<0, 0>>>>) \o LineMap(es[i], i))
 
 Rendered(es) ==
-    LET lay == Layout(es, 1, <<>>, <<>>) IN
+    LET lay == Layout(es, 1, <<>>, <<>>, <<>>) IN
     [ lines  |-> [i \in 1..Len(lay.lines) |-> lay.lines[i].s],
       lex    |-> [i \in 1..Len(lay.lines) |-> lay.lines[i].lex],
       u16    |-> [i \in 1..Len(lay.lines) |-> Len(lay.lines[i].s)],
       runes  |-> [i \in 1..Len(lay.lines) |-> Len(lay.lines[i].s) - lay.lines[i].a],
       firsts |-> lay.firsts,
+      pmap   |-> lay.pmap,
       abs    |-> [i \in 1..Len(es) |-> AbsEntry(es[i])] ]
 
 (* ---- helpers for writing choice records ----------------------------------------------------- *)
